@@ -728,3 +728,29 @@ def rule_bins(prog, C, rule):
             C.ok(bool(okv and okm), rule, where, "bins (no size): yields each distinct value with the rows whose inverse index points at it", "(uniqs[i], row_indexes == i)",
                  "yields %s" % tm.show(v)[:80], witness={"inputs": "coordinates that are not 0..k-1: cells are labelled by position instead of by value"})
     return n
+
+
+# ------------------------------------------------------------------------------ tracing twins
+def rule_tracing_twins(prog, C, rule, classes=None):
+    """The fill closures exist twice (with and without the timing diagnostics): both store the same cell values."""
+    n = 0
+    for name in SHARED:
+        if classes and name not in classes:
+            continue
+        for w in weight_modes(name):
+            for ign in (False, True):
+                m0 = model(prog, "ffuncs", "ffunc_" + name, aggr.Config(weights=w, ignore=ign))
+                m1 = model(prog, "ffuncs", "ffunc_" + name, aggr.Config(weights=w, ignore=ign, tracing=True))
+                where = "ffuncs:ffunc_%s.fill_func" % name
+                for p in range(m0.npos or 0):
+                    n += 1
+                    cons = "%s region %d, weights %s, %s: traced and untraced fill agree" % (name, p, w, "ignore" if ign else "propagate")
+                    a, b = m0.cell.get(p, []), m1.cell.get(p, [])
+                    if not a or not b or any(has_unknown(x) for x in a + b):
+                        C.add(rule, UNDECIDED, where, cons, "fill expression not found / not normalised in one variant")
+                        continue
+                    fa = sorted(repr(sorted(scalarise(erase_R(x), aggr.Config(weights=w, ignore=ign)).items(), key=repr)) for x in a)
+                    fb = sorted(repr(sorted(scalarise(erase_R(x), aggr.Config(weights=w, ignore=ign)).items(), key=repr)) for x in b)
+                    C.ok(fa == fb, rule, where, cons, "same reducer", "with tracing switched on the cell holds %s, without it %s" % (show_lin(b[0]), show_lin(a[0])),
+                         witness={"inputs": "the same cube computed with func.tracing set: different counts"})
+    return n
